@@ -2,6 +2,7 @@ package absint
 
 import (
 	"fmt"
+	"go/token"
 	"go/types"
 	"math/big"
 	"strconv"
@@ -32,6 +33,16 @@ func (fr *frame) call(x *ssa.Call) Value {
 		return fr.builtin(x, b.Name(), args)
 	}
 	callee := cc.StaticCallee()
+	var free []Value
+	// a function value: a declared function read from a table or a variable,
+	// or a closure with its captured variables
+	switch cc.Value.(type) {
+	case *ssa.Function, *ssa.Builtin:
+	default:
+		if fv, ok := fr.get(cc.Value).(Func); ok && fv.Fn != nil {
+			callee, free = fv.Fn, fv.Free
+		}
+	}
 	if callee == nil {
 		for _, a := range args {
 			fr.havocValue(a, "passed to a dynamic callee")
@@ -48,7 +59,7 @@ func (fr *frame) call(x *ssa.Call) Value {
 		return v
 	}
 	if in.InModule != nil && in.InModule(callee) && callee.Blocks != nil {
-		return in.run(callee, args, fr.depth+1)
+		return in.run(callee, args, free, fr.depth+1)
 	}
 	for _, a := range args {
 		fr.havocValue(a, "passed to "+callee.String())
@@ -60,8 +71,10 @@ func (fr *frame) call(x *ssa.Call) Value {
 func (fr *frame) havocValue(v Value, why string) {
 	switch a := v.(type) {
 	case Ptr:
+		fr.in.mark(a.N)
 		havoc(a.N, why, map[*Node]bool{})
 	case Slice:
+		fr.in.mark(a.Arr)
 		havoc(a.Arr, why, map[*Node]bool{})
 	case Iface:
 		if a.V != nil {
@@ -226,6 +239,47 @@ func (fr *frame) builtin(x *ssa.Call, name string, args []Value) Value {
 	return nil
 }
 
+// bytesEqual: the contract of bytes.Equal on abstract slices — decided when the
+// lengths differ, when some byte pair differs in a constant lane, or when every
+// byte pair carries the very same lanes.
+func bytesEqual(x, y Value) Bool {
+	a, ok1 := x.(Slice)
+	b, ok2 := y.(Slice)
+	if !ok1 || !ok2 {
+		return Bool{}
+	}
+	la, lb := 0, 0
+	if !a.Nil {
+		la = a.Len()
+	}
+	if !b.Nil {
+		lb = b.Len()
+	}
+	if la != lb {
+		return Bool{Known: true, Val: false}
+	}
+	all := true
+	for i := 0; i < la; i++ {
+		p, okp := a.Arr.Kids[a.Lo+i].Leaf.(Int)
+		q, okq := b.Arr.Kids[b.Lo+i].Leaf.(Int)
+		if !okp || !okq {
+			all = false
+			continue
+		}
+		eq, known := lanes.Compare(token.EQL, p.V, q.V, false)
+		if known && !eq {
+			return Bool{Known: true, Val: false}
+		}
+		if !known {
+			all = false
+		}
+	}
+	if all {
+		return Bool{Known: true, Val: true}
+	}
+	return Bool{}
+}
+
 func cellValue(n *Node) Value {
 	if n.Kids != nil {
 		return Agg{copyNode(n)}
@@ -267,6 +321,9 @@ func (fr *frame) byteCells(v Value, n int, what string) []*Node {
 
 func (fr *frame) stdlib(x *ssa.Call, callee *ssa.Function, args []Value) (Value, bool) {
 	in := fr.in
+	if v, ok := fr.bufferModel(x, callee, args); ok {
+		return v, true
+	}
 	if bigE, ok := byteOrderOf(callee); ok {
 		name := callee.Name()
 		bits := 0
@@ -307,6 +364,7 @@ func (fr *frame) stdlib(x *ssa.Call, callee *ssa.Function, args []Value) (Value,
 			}
 			for j := 0; j < nb; j++ {
 				cells[pos(j)].Leaf = Int{append(lanes.Vec(nil), iv.V[8*j:8*j+8]...)}
+				in.mark(cells[pos(j)])
 			}
 			return nil, true
 		case strings.HasPrefix(name, "AppendUint"):
@@ -325,6 +383,9 @@ func (fr *frame) stdlib(x *ssa.Call, callee *ssa.Function, args []Value) (Value,
 		return nil, false
 	}
 	full := callee.Pkg.Pkg.Path() + "." + callee.Name()
+	if o := callee.Origin(); o != nil {
+		full = callee.Pkg.Pkg.Path() + "." + o.Name() // instantiation of a generic (slices.Clone[[]byte])
+	}
 	if callee.Signature.Recv() != nil {
 		if callee.Pkg.Pkg.Path() == "regexp" && callee.Name() == "MatchString" && len(args) == 2 {
 			re, ok := args[0].(Regex)
@@ -339,6 +400,7 @@ func (fr *frame) stdlib(x *ssa.Call, callee *ssa.Function, args []Value) (Value,
 			if err != "" {
 				in.stop("%s: regexp %q: %s", fr.fn.Name(), re.Pat, err)
 			}
+			in.Matches = append(in.Matches, MatchEvent{Fn: fr.fn.Name(), Pat: re.Pat, Result: m})
 			return Bool{Known: true, Val: m}, true
 		}
 		return nil, false
@@ -351,6 +413,15 @@ func (fr *frame) stdlib(x *ssa.Call, callee *ssa.Function, args []Value) (Value,
 			return Regex{pat}, true
 		}
 		return nil, false
+	}
+	return fr.stdlibNamed(x, full, args)
+}
+
+// stdlibNamed: the models of plain library functions, by qualified name.
+func (fr *frame) stdlibNamed(x *ssa.Call, full string, args []Value) (Value, bool) {
+	in := fr.in
+	if v, ok := fr.strFuncs(x, full, args); ok {
+		return v, true
 	}
 	str := func(i int) *Str {
 		s, ok := args[i].(*Str)
@@ -369,6 +440,32 @@ func (fr *frame) stdlib(x *ssa.Call, callee *ssa.Function, args []Value) (Value,
 	switch full {
 	case "fmt.Errorf", "errors.New":
 		return errIface(full), true
+	case "bytes.Clone", "slices.Clone":
+		// a fresh copy with len == cap; Clone(nil) == nil
+		s, ok := args[0].(Slice)
+		if !ok {
+			return nil, false
+		}
+		if s.Nil {
+			return s, true
+		}
+		et := s.Arr.T.Underlying().(*types.Array).Elem()
+		arr := &Node{T: types.NewArray(et, int64(s.Len())), Kids: make([]*Node, 0, s.Len())}
+		for i := s.Lo; i < s.Hi; i++ {
+			arr.Kids = append(arr.Kids, copyNode(s.Arr.Kids[i]))
+		}
+		return Slice{Arr: arr, Lo: 0, Hi: len(arr.Kids), Cap: len(arr.Kids)}, true
+	case "bytes.Equal", "slices.Equal", "crypto/hmac.Equal":
+		return bytesEqual(args[0], args[1]), true
+	case "crypto/subtle.ConstantTimeCompare":
+		b := bytesEqual(args[0], args[1])
+		if !b.Known {
+			return Int{lanes.TopVec(64)}, true
+		}
+		if b.Val {
+			return intConst(1, 64), true
+		}
+		return intConst(0, 64), true
 	case "strings.TrimSpace":
 		s := str(0)
 		if s.Opaque {
@@ -481,6 +578,7 @@ func (fr *frame) stdlib(x *ssa.Call, callee *ssa.Function, args []Value) (Value,
 		if err != "" {
 			in.stop("%s: regexp %q: %s", fr.fn.Name(), pat, err)
 		}
+		in.Matches = append(in.Matches, MatchEvent{Fn: fr.fn.Name(), Pat: pat, Result: m})
 		return tuple2(Bool{Known: true, Val: m}, Iface{}), true
 	case "strconv.ParseUint":
 		return fr.parseUint(str(0), args[1], args[2]), true
